@@ -1,6 +1,8 @@
 """Per-property configuration of the checks (sidecar modules, levels, trusted base)."""
 
 SIDECARS = [
+    'contracts.display_c',
+    'contracts.csv_c',
     'contracts.table_c',
     'contracts.vector_c',
     'contracts.typing_c',
